@@ -7,8 +7,11 @@
   SEMANTICS ENCODED (assumed of the Go runtime, not verified): every statement touching shared state
   (an atomic, a context, a channel, the net.Conn) is one atomic step; an unbuffered channel operation
   is one joint step of sender and receiver; `select` chooses non-deterministically among its ready
-  cases; a context is a monotone flag with a first-writer-wins cause; `terminate` is three separate
-  steps (cancel / swap tx / close stream) for every goroutine executing it.
+  cases; a context is a monotone flag with a first-writer-wins cause; `terminate` is separate steps
+  for every goroutine executing it: `cancel`, then swap-tx + close-stream. (The last two are one step:
+  the swap is observed only by `send`'s `tx.Load()`, the close only by reads/writes of the stream, so
+  every interleaving that separates them is equivalent to one that does not.) Steps that can only
+  re-set an already set monotone flag are fused with their predecessor (`norm1`).
 
   PROCESSES. `R` readloop, `W` writeloop of the *current* connection (the value of `c.conn`); `K` the
   caller holding the client mutex (callers are serialised by `c.lock`; waiting callers have no effect
@@ -69,14 +72,14 @@ def patched : Params := { current with recheckAfterDial := true }
 
 /-- readloop. `r2c`/`r2s`: holds a decoded response (colour) before the `rx` hand-off.
     `rtA1`/`rtA2`: `Recv` failed (retryable: io.EOF, io.ErrClosedPipe / fatal: anything else), about to
-    `cancel`; `rtB` about to swap `tx`; `rtC` about to close the stream; `rEnd`: returned, `rx` closed. -/
+    `cancel`; `rtB` about to swap `tx` and close the stream; `rEnd`: returned, `rx` closed. -/
 inductive RP where
   | r0 | r1 | r2c | r2s | rtA1 | rtA2 | rtB | rEnd
   deriving Repr, DecidableEq, Inhabited
 
 /-- writeloop. `wc` loop condition, `ws` in the select, `w1x` in `Send` with a message of colour x,
     `w2xy` `Send` failed with class y (r retryable / f fatal), before `req.err <- err`,
-    `wtA1`/`wtA2`, `wtB`, `wtC` terminate, `wEnd` returned. -/
+    `wtA1`/`wtA2`, `wtB` terminate, `wEnd` returned. -/
 inductive WP where
   | wc | ws | w1c | w1s | w2cr | w2cf | w2sr | w2sf | wtA1 | wtA2 | wtB | wEnd
   deriving Repr, DecidableEq, Inhabited
@@ -102,7 +105,7 @@ inductive KP where
   deriving Repr, DecidableEq, Inhabited
 
 /-- `Client.Close()`. `c1`: `c.closed.Store(true)` done, about to read `c.conn`; `c2`: `conn.Close()`:
-    `closed.Swap(true)`; `ctA..ctC` its terminate. -/
+    `closed.Swap(true)`; `ctA`, `ctB` its terminate. -/
 inductive CP where
   | c0 | c1 | c2 | ctA | ctB | cDone
   deriving Repr, DecidableEq, Inhabited
@@ -127,7 +130,7 @@ structure St where
   tainted : Bool              -- ghost: an exchange has been abandoned on this connection
   -- client
   kp : KP
-  kres : Nat                  -- error class to return after `ktA..ktC`
+  kres : Nat                  -- error class to return after `ktA`, `ktB`
   retry : Nat
   kctx : Bool                 -- the caller's context is done
   cclosed : Bool              -- c.closed
@@ -428,13 +431,10 @@ def norm1 (p : Params) (s : St) : St :=
   let cp := if cdone then .cDone else if s.cref && s.cp == .ctA && s.cause != 0 then .ctB else s.cp
   { s with rp := rp, wp := wp, kp := kp, cp := cp, cref := s.cref && !cdone }
 
-/-- one pass of `norm1` can enable another (e.g. `ktA → ktB` never, but `k6` left ⇒ `r2 → rEnd`); the
-    fusions are idempotent after two passes on every state produced by a single step. -/
-def norm (p : Params) (s : St) : St := norm1 p (norm1 p s)
+/-- `norm1` is idempotent: its rules read only `closed`, `cause`, `txNil`, `netClosed` (which it does not
+    change) and whether `kp` is one of `k2`, `k3o`, `k6` (which its own rewriting of `kp` never changes). -/
+def norm (p : Params) (s : St) : St := norm1 p s
 
-/-- successors. Exploration stops at the first state in which a connection has been installed although
-    `Close()` had already set `c.closed` (`raced`; only possible without `recheckAfterDial`): every run
-    either never does that, or has a prefix ending in such a state. -/
 def stepAll (p : Params) (s : St) : List St := (stepInt p s ++ stepEnv p s).map (norm p)
 
 def step (p : Params) (s : St) : List St := if s.raced then [] else stepAll p s
